@@ -57,7 +57,7 @@ def corpus_cases():
             l = l.rstrip("\n")
             if not l or l.startswith("#"):
                 continue
-            l = l.replace("{REPO}", C.REPO)
+            l = l.replace("{REPO}", C.REPO).replace("{CORPUS}", d)
             (anns if l.startswith("ann ") else cfg).append(l)
         out.append(Case("corpus:" + n, "corpus", cfg, anns, ["corpus"]))
     return out
@@ -467,7 +467,7 @@ def judge_rt(r, ver, flags):
             strip = lambda b: re.sub(rb"[ \t]*<support [^>]*/>\n", b"", b)
             ok = strip(x1b) == strip(x2b)
         if not ok:
-            v.add("second-export-differs", "exporting the reloaded topology does not give the same bytes: %s" % first_diff(r))
+            v.add("second-export-differs" + (":after-userdata-cr" if any(k.startswith("userdata-bytes:plain-cr") for k, _ in v.items) else ""), "exporting the reloaded topology does not give the same bytes: %s" % first_diff(r))
     return v
 
 
@@ -488,15 +488,105 @@ def first_diff(r):
 # --------------------------------------------------------------------------
 
 def model_bytes(drv, results):
-    """results: list of parsed rts with nolibxml export.  Returns list of hex strings (or error text)."""
-    inp = []
-    for r in results:
-        inp += r["M"]
-    rc, out, err = C.sh([drv], input=("\n".join(inp) + "\n").encode(), timeout=900)
-    lines = [l for l in out.decode(errors="replace").split("\n") if l.startswith("XM ")]
-    if rc != 0 or len(lines) != len(results):
-        return None, "driver rc=%d produced %d of %d answers: %s" % (rc, len(lines), len(results), err.decode(errors="replace")[-500:])
-    return [l[3:] for l in lines], None
+    """results: list of parsed rts.  Returns list of answers ("<hex>" | "overflow"), or (None, error)."""
+    chunks = [results[i:i + 8] for i in range(0, len(results), 8)]
+
+    def one(chunk):
+        inp = []
+        for r in chunk:
+            inp += r["M"]
+        rc, out, err = C.sh([drv], input=("\n".join(inp) + "\n").encode(), timeout=900)
+        lines = [l for l in out.decode(errors="replace").split("\n") if l.startswith("XM ")]
+        if rc != 0 or len(lines) != len(chunk):
+            return None, "driver rc=%d produced %d of %d answers: %s" % (rc, len(lines), len(chunk), err.decode(errors="replace")[-500:])
+        return [l[3:] for l in lines], None
+    res = []
+    with cf.ThreadPoolExecutor(max_workers=C.NCPU) as ex:
+        for lines, e in ex.map(one, chunks):
+            if lines is None:
+                return None, e
+            res += lines
+    return res, None
+
+
+def b64_stream(run, exe, drv):
+    """Direct differential test of the two base64 routines (valid and malformed inputs, every target size around the need)."""
+    rng = run.rng
+    lines = []
+    n = 400 if run.tier == "quick" else 20000
+    alpha = b"ABCDEFGHIJKLMNOPQRSTUVWXYZabcdefghijklmnopqrstuvwxyz0123456789+/"
+    for ln in range(0, 14):
+        data = bytes(rng.randint(0, 255) for _ in range(ln))
+        need = 4 * ((ln + 2) // 3)
+        for ts in sorted({0, 1, need - 1, need, need + 1, need + 2, 64} - {-1}):
+            lines.append("b64e %s %d" % (G.hx(data), ts))
+    fixed = [b"", b"=", b"A", b"A=", b"A===", b"AA", b"AA=", b"AA==", b"AA==A", b"AA== ", b"AA = =", b"AA=A", b"AAA", b"AAA=", b"AAA= ", b"AAA=A", b"AAA==", b"AAAA", b"AAAA=",
+             b"AB==", b"AAB=", b"AQ==", b" A Q = = ", b"AQ==\n", b"AQ=\t=", b"A\x01AA", b"AAAA\xff", b"AA-A", b"AAAAA", b"AAAAAA==", b"AAAAAAA=", b"////", b"++++", b"/w==", b"//8="]
+    for f in fixed:
+        for ts in (0, 1, 2, 3, 4, 5, 8):
+            lines.append("b64d %s %d" % (G.hx(f), ts))
+    for _ in range(n):
+        if rng.random() < 0.5:
+            ln = rng.randint(0, 40)
+            data = bytes(rng.randint(0, 255) for _ in range(ln))
+            lines.append("b64e %s %d" % (G.hx(data), rng.choice([4 * ((ln + 2) // 3) + 1, rng.randint(0, 70)])))
+        else:
+            ln = rng.randint(0, 24)
+            r = rng.random()
+            if r < 0.5:
+                import base64
+                raw = bytes(rng.randint(0, 255) for _ in range(ln))
+                txt = bytearray(base64.b64encode(raw))
+                for _ in range(rng.choice([0, 0, 1, 2])):
+                    if txt:
+                        k = rng.randrange(len(txt))
+                        op = rng.random()
+                        if op < 0.3:
+                            txt.insert(k, rng.choice(b" \t\n\r\x0b\x0c"))
+                        elif op < 0.6:
+                            txt[k] = rng.choice(alpha + b"=-_\x80")
+                        else:
+                            del txt[k]
+                want = ln
+            else:
+                txt = bytearray(rng.choice(alpha + b"= \n") for _ in range(ln))
+                want = (ln * 3) // 4
+            txt = bytes(c for c in txt if c != 0)
+            lines.append("b64d %s %d" % (G.hx(txt), rng.choice([want, want + 1, want + 1, want + 2, rng.randint(0, 30)])))
+    inp = ("\n".join(lines) + "\n").encode()
+    rc1, o1, e1 = C.sh([exe], input=inp, env=C.run_env(), timeout=600)
+    rc2, o2, e2 = C.sh([drv], input=inp, timeout=600)
+    l1 = [l for l in o1.decode(errors="replace").split("\n") if l.startswith("B64")]
+    l2 = [l for l in o2.decode(errors="replace").split("\n") if l.startswith("B64")]
+    if rc1 != 0:
+        run.violation("crash:base64", "base64 harness died rc=%d: %s" % (rc1, e1.decode(errors="replace")[-1500:]), "\n".join(lines[:50]))
+    nd = 0
+    for i, (a, b) in enumerate(zip(l1, l2)):
+        ok = a == b
+        run.count("b64|%s|%s" % (lines[i][:80], a[:60]), nontrivial="rc=-1" not in a, kind="base64:" + ("accepted" if "rc=-1" not in a else "rejected"))
+        if not ok:
+            nd += 1
+            run.violation("correspondence:base64:%s" % lines[i].split(" ")[0], "base64 model and C differ on '%s': C '%s' model '%s'" % (lines[i][:120], a[:120], b[:120]),
+                          "%s\nC:     %s\nmodel: %s" % (lines[i], a, b), no_input=True)
+        # spec on the C output: decode(encode x) = x
+        if ok:
+            run.cov["traces_validated_against_impl"] += 1
+    if len(l1) != len(lines) or len(l2) != len(lines):
+        run.violation("correspondence:base64:count", "base64 stream: %d inputs, %d C answers, %d model answers" % (len(lines), len(l1), len(l2)), "", no_input=True)
+    # spec evaluation on the implementation: every accepted encoding decodes back (C both ways)
+    enc = [(lines[i], a) for i, a in enumerate(l1) if lines[i].startswith("b64e") and "rc=-1" not in a]
+    back = []
+    for ln, a in enc:
+        h = kv(a)["out"][1:-2]          # drop the NUL
+        src = ln.split(" ")[1]
+        back.append(("b64d s%s %d" % (h, len(src[1:]) // 2 + 1), src))
+    if back:
+        rc3, o3, e3 = C.sh([exe], input=("\n".join(b for b, _ in back) + "\n").encode(), env=C.run_env(), timeout=600)
+        l3 = [l for l in o3.decode(errors="replace").split("\n") if l.startswith("B64D")]
+        for (cmd, src), a in zip(back, l3):
+            if kv(a)["out"] != src:
+                run.violation("base64-roundtrip", "hwloc_decode_from_base64(hwloc_encode_to_base64(x)) != x for x=%s: %s" % (src[:80], a[:100]), cmd)
+            run.bump("base64:c-roundtrip")
 
 
 # --------------------------------------------------------------------------
@@ -633,7 +723,7 @@ def check(run, replay=None):
                     run.cov["traces_validated_against_impl"] += 1
                 if loaded and r["B"] and ver == "v3":
                     bsides.setdefault((id(c), mode), []).append((p, norm_b_side(r), c))
-                if loaded and p[0] == "0" and r["X1"] and r["X1"].startswith("X1 rc=0") and r["M"]:
+                if loaded and p[0] == "0" and r["M"] and r["M"][-1] == "ME" and ((r["X1"] and r["X1"].startswith("X1 rc=0")) or not r["X1"]):
                     to_model.append(i)
             # ---- cross-backend equivalence on the reloaded side ----
             for (cid, mode), lst in bsides.items():
@@ -660,6 +750,16 @@ def check(run, replay=None):
                     nok = 0
                     for i, hm in zip(to_model, hexes):
                         c, p, mode, ver = jobs[i]
+                        if not results[i]["X1"]:
+                            # the C export did not return: the model must predict exactly that (sprintf past the 255-byte line buffer)
+                            ovf = "stack-buffer-overflow" in results[i].get("stderr", "")
+                            if (hm == "overflow") != ovf:
+                                run.violation("correspondence:export-overflow", "model says %s, C export %s on %s" % (hm[:20], "overflowed its line buffer" if ovf else "died otherwise", c.name[:80]),
+                                              replay_text(c, p, mode, ver, results[i].get("stderr", "")[-1500:]), no_input=True)
+                            else:
+                                nok += 1
+                                run.bump("model-predicts-export-overflow")
+                            continue
                         hc = kv(results[i]["X1"])["hex"][1:]
                         if mode == "buffer" and hc.endswith("00"):
                             hc = hc[:-2]          # the buffer API counts the ending NUL
@@ -673,6 +773,8 @@ def check(run, replay=None):
                             nok += 1
                     run.cov["export_bytes_model_equal"] = nok
                     run.cov["export_bytes_compared"] = len(to_model)
+            if drv and not replay:
+                b64_stream(run, exe, drv)
     finally:
         shutil.rmtree(tmpdir, ignore_errors=True)
     run.cov["rule"] = ("one evaluation = one (topology, annotations) x backend pairing x {buffer,file} x {v3,v2} round trip; non-trivial = source loaded and the round trip ran to the second export; "
